@@ -50,3 +50,16 @@ Definition ols_x (P : list (R * R)) (f : R -> R -> R) : XR :=
 (* ---- time trend: the non-null values of the window regressed on t = 1..n ---- *)
 Definition trend_from (t : nat) (V : list R) : list (R * R) := combine V (map INR (seq t (length V))).
 Definition trend_pairs (V : list R) : list (R * R) := trend_from 1 V.
+
+(* ---- the aggregation statistics the residual closures apply to the residual list
+   (tea-core/src/agg.rs vmean, vstd(2), vskew(3) over the non-null items), as textbook values ---- *)
+Definition agg_mean_spec (V : list R) : XR :=
+  if (length V =? 0)%nat then None else Some (meanR V).
+(* sample standard deviation, 0 under the EPS floor on the population variance *)
+Definition agg_std_spec (V : list R) : XR :=
+  if (length V <? 2)%nat then None
+  else if Rle_dec (popvarR V) EPS then Some 0 else Some (samplestdR V).
+(* adjusted Fisher-Pearson skewness, 0 under the EPS floor *)
+Definition agg_skew_spec (V : list R) : XR :=
+  if (length V <? 3)%nat then None
+  else if Rle_dec (popvarR V) EPS then Some 0 else Some (skewR V).
